@@ -296,9 +296,11 @@ func finish(ld *Loaded, db *SpecDB, reports []*FuncReport, groups map[string]*ob
 				}
 			}
 		}
-		if kf := matchKnown(known, prop, n, g); kf != nil {
+		if kfs := matchKnown(known, prop, n, g); len(kfs) > 0 {
 			knownHit++
-			lines = append(lines, fmt.Sprintf("KNOWN-FINDING: property=%s %s %s", prop, n, kf.What))
+			for _, kf := range kfs {
+				lines = append(lines, fmt.Sprintf("KNOWN-FINDING: property=%s %s %s", prop, n, kf.What))
+			}
 			continue
 		}
 		replayPath, confirmed := tryReplay(ld, prop, n, bad, work)
@@ -346,30 +348,45 @@ func finish(ld *Loaded, db *SpecDB, reports []*FuncReport, groups map[string]*ob
 	return 0
 }
 
-func matchKnown(k KnownFile, prop, name string, g *oblGroup) *KnownFinding {
+// matchKnown: a failing obligation is a known finding when every failing path instance
+// matches the path signature of some recorded finding for that (property, obligation);
+// a failure on any other path is still reported.
+func matchKnown(k KnownFile, prop, name string, g *oblGroup) []*KnownFinding {
+	var cands []*KnownFinding
 	for i := range k.Findings {
 		f := &k.Findings[i]
-		if f.Property != prop || f.Obligation != name {
-			continue
-		}
-		if f.Path == "" {
-			return f
-		}
-		// every failing instance must match the recorded path signature
-		all := true
-		for _, ob := range g.Insts {
-			if ob.Status == "discharged" || ob.Status == "trivial" {
-				continue
-			}
-			if !strings.Contains(strings.Join(ob.Trace, " "), f.Path) {
-				all = false
-			}
-		}
-		if all {
-			return f
+		if f.Obligation == name {
+			cands = append(cands, f)
 		}
 	}
-	return nil
+	if len(cands) == 0 {
+		return nil
+	}
+	used := map[*KnownFinding]bool{}
+	for _, ob := range g.Insts {
+		if ob.Status == "discharged" || ob.Status == "trivial" {
+			continue
+		}
+		tr := strings.Join(ob.Trace, " ")
+		hit := false
+		for _, f := range cands {
+			if f.Path == "" || strings.Contains(tr, f.Path) {
+				used[f] = true
+				hit = true
+				break
+			}
+		}
+		if !hit {
+			return nil
+		}
+	}
+	var out []*KnownFinding
+	for _, f := range cands {
+		if used[f] {
+			out = append(out, f)
+		}
+	}
+	return out
 }
 
 func writeBaseline(prop string, groups map[string]*oblGroup, names []string) {
